@@ -27,7 +27,10 @@ RULE = ("random systems: 1-3 species x 1-3 environments; density / chstt scalar 
         "symbols); grid (w,h,d <= 4, all boundary settings, number / UnitValue / string cell volume) or graph (1-8 nodes, "
         "per-node volume and units system) spaces with random environment maps; independent random units systems for "
         "species, network, space, nodes and system; every (species, cell) pair read through rotating naming forms; "
-        "random writes; malformed positions / species; species edits + regeneration.  Non-trivial: more than one cell or "
+        "random writes; malformed positions / species; species edits + regeneration; every 5th system has a chstt dictionary with "
+        "an explicitly falsy entry (False / 0 / 0.0) for a used environment AND a truthy 'default' (also after an edit); sharing: "
+        "systems built from another system's arrays / the caller's ndarrays (constructor and property setters), a setter on one "
+        "must change one entry of that system and nothing else, edits of the caller's arrays must not leak.  Non-trivial: more than one cell or "
         "species and a non-zero density somewhere; distinct by the whole description")
 ASSUMPTIONS = [
     "floats: |impl - exact| <= 1e-9 relative (products and unit conversions only, no cancellation)",
@@ -139,7 +142,25 @@ def envval_lookup(ev, env, dflt, split_keys):
     return table.get("default", dflt)
 
 
-def gen_desc(rng, malformed_env=False):
+def falsy_default_chstt(rng, envs, env):
+    """a per-environment chemostat dictionary whose entry for `env` is explicitly falsy (False / 0 / 0.0) while the
+    'default' entry is truthy: the explicit entry must win"""
+    items = [(env, rng.choice([False, 0, 0.0]))]
+    for e in envs:
+        if e != env and rng.random() < 0.5:
+            items.append((e, rng.choice([True, False, 1])))
+    items.insert(rng.randint(0, len(items)), ("default", rng.choice([True, 1])))
+    return ("dict", items)
+
+
+def used_env(desc, rng):
+    sd = desc["space"]
+    idxs = sd["cell_env"] if sd["kind"] == "grid" else [nd["env"] for nd in sd["nodes"]]
+    ok = [e for e in idxs if 0 <= e < len(desc["envs"])]
+    return desc["envs"][rng.choice(ok)] if ok else desc["envs"][0]
+
+
+def gen_desc(rng, malformed_env=False, force_falsy=False):
     envs = rng.sample(["a", "b", "c", "cyt", "mem"], rng.randint(1, 3))
     nsys = rand_sys(rng)
     species = []
@@ -176,8 +197,12 @@ def gen_desc(rng, malformed_env=False):
     desc = {"envs": envs, "net_sys": nsys, "species": species, "space": space, "sys": rand_sys(rng), "n": n}
     if rng.random() < 0.12:
         desc["state_override"] = [nice_float(rng) for _ in range(n * len(species))]
-    if rng.random() < 0.12:
+    if rng.random() < 0.12 and not force_falsy:
         desc["chem_override"] = [int(rng.random() < 0.3) for _ in range(n * len(species))]
+    if force_falsy:
+        k = rng.randrange(len(species))
+        species[k]["chstt"] = falsy_default_chstt(rng, envs, used_env(desc, rng))
+        desc["force_falsy"] = True
     return desc
 
 
@@ -333,6 +358,9 @@ def run_system(ctx, desc, idx):
     for s in desc["species"]:
         ctx.count("density_" + s["density"][0])
         ctx.count("chstt_" + s["chstt"][0])
+        if s["chstt"][0] == "dict" and any(k == "default" and v for k, v in s["chstt"][1]) \
+                and any(k != "default" and not v for k, v in s["chstt"][1]):
+            ctx.count("chstt_falsy_entry_with_truthy_default")
     if not valid_env:
         ctx.count("malformed_env_map")
         # (whether such a map is rejected is input validation, C20; here only model vs code is compared)
@@ -510,6 +538,9 @@ def run_system(ctx, desc, idx):
         spd = desc["species"][s]
         newd = gen_envval(rng, desc["envs"], lambda: gen_quantity(rng, spd["sys"], DENS))
         newc = gen_envval(rng, desc["envs"], lambda: rng.random() < 0.5, comma=False)
+        if desc.get("force_falsy") and _ == 0:
+            newc = falsy_default_chstt(rng, desc["envs"], used_env(desc, rng))
+            ctx.count("edit_chstt_falsy_with_default")
         system.network.species[s].density = envval_real(newd, DENS)
         system.network.species[s].chstt = envval_real(newc, None)
         calls.append({"model": {"k": "edit_density", "species": s, "sys": sysj(spd["sys"]), "density": envval_model(newd, DENS)}, "real": (None, None), "forms": ("", "")})
@@ -597,6 +628,108 @@ def compare(ctx, rec, r):
                      {"state": mo["state"]["vs"][:12], "chem": mo["chem"][:12]})
 
 
+def snapshot(system):
+    return ([float(v) for v in system.state.value], units_tuple(system.state.units), [int(v) for v in system.chemostats])
+
+
+def run_sharing(ctx, desc, idx):
+    """objects that share an input array: a setter called on ONE system writes exactly one entry of THAT system and nothing
+    anywhere else (other systems built from its arrays, the caller's own arrays), and later edits of the caller's arrays
+    do not leak into the system"""
+    import numpy as np
+    from strengths import RDSystem, UnitsSystem, UnitArray
+    rng = ctx.rng
+    nsp, n = len(desc["species"]), desc["n"]
+    try:
+        sys1 = build_real(desc)
+    except Exception:  # noqa
+        return
+    us = UnitsSystem(*desc["sys"])
+    net, space = sys1.network, sys1.space
+    user_ch = np.array([int(rng.random() < 0.3) for _ in range(n * nsp)], dtype=int)
+    user_st = np.array([nice_float(rng) for _ in range(n * nsp)], dtype=float)
+    user_ua = UnitArray([nice_float(rng) for _ in range(n * nsp)], sys1.state.units)
+    variants = []
+    try:
+        variants.append(("ctor(chemostats=sys1.chemostats, state=sys1.state)", RDSystem(net, space, state=sys1.state, chemostats=sys1.chemostats, units_system=us)))
+        variants.append(("ctor(int ndarray, float ndarray)", RDSystem(net, space, state=user_st, chemostats=user_ch, units_system=us)))
+        s4 = RDSystem(net, space, units_system=us)
+        s4.chemostats = sys1.chemostats
+        s4.state = sys1.state
+        variants.append(("property setters from sys1", s4))
+        s5 = RDSystem(net, space, units_system=us)
+        s5.chemostats = user_ch
+        s5.state = user_ua
+        variants.append(("property setters from user arrays", s5))
+    except Exception as e:  # noqa
+        ctx.violation("sharing-build-raises", "building a system from another system's arrays raised %s" % type(e).__name__, {"desc": desc},
+                      impl=type(e).__name__, expected="system")
+        return
+    systems = [("sys1", sys1)] + variants
+    case = {"desc": desc, "kind": "sharing"}
+
+    def others_state():
+        return ([snapshot(sy) for _, sy in systems], [int(v) for v in user_ch], [float(v) for v in user_st],
+                [float(v) for v in user_ua.value])
+    for step in range(6):
+        k = rng.randrange(len(systems))
+        name, target = systems[k]
+        s, c = rng.randrange(nsp), rng.randrange(n)
+        flat = s * n + c
+        before = others_state()
+        what = rng.choice(["chem", "state"])
+        try:
+            if what == "chem":
+                newv = 1 - before[0][k][2][flat]
+                target.set_chemostat(s, c, newv)
+            else:
+                newv = before[0][k][0][flat] + 1.0 + rng.randint(0, 5)
+                from strengths import UnitValue
+                target.set_state(s, c, UnitValue(newv, target.state.units))
+        except Exception as e:  # noqa
+            ctx.violation("sharing-set-raises", "%s on %s raised %s" % (what, name, type(e).__name__), dict(case, target=name), impl=type(e).__name__, expected="ok")
+            return
+        after = others_state()
+        ctx.case(("share", idx, step), nontrivial=True)
+        ctx.count("sharing_writes")
+        # expected: only entry `flat` of the target's own array changed
+        want = json_copy(before)
+        want = (want[0], want[1], want[2], want[3])
+        if what == "chem":
+            want[0][k][2][flat] = newv
+        else:
+            want[0][k][0][flat] = float(newv)
+        if after != want:
+            leaks = []
+            for (nm, _), a, w in zip(systems, after[0], want[0]):
+                if a != w:
+                    leaks.append(nm)
+            for nm, a, w in (("caller's int ndarray", after[1], want[1]), ("caller's float ndarray", after[2], want[2]),
+                             ("caller's UnitArray", after[3], want[3])):
+                if a != w:
+                    leaks.append(nm)
+            ctx.violation("aliasing:%s" % what, "set_%s(species %d, cell %d) on %s (%s) also changed / failed to change: %s"
+                          % ("chemostat" if what == "chem" else "state", s, c, name, "built first" if k == 0 else name, leaks),
+                          dict(case, target=name, species=s, cell=c, what=what), impl={"changed": leaks}, expected="only entry %d of %s" % (flat, name))
+            return
+    # later edits of the caller's arrays do not leak into the systems
+    before = others_state()
+    j = rng.randrange(n * nsp)
+    user_ch[j] = 1 - user_ch[j]
+    user_st[j] += 7.0
+    user_ua.value[j] += 7.0
+    after = others_state()
+    if after[0] != before[0]:
+        leaks = [nm for (nm, _), a, b in zip(systems, after[0], before[0]) if a != b]
+        ctx.violation("aliasing:caller-edit", "editing the caller's own arrays after construction changed the systems %s (no setter was called)" % leaks,
+                      dict(case, edited_index=j), impl={"changed": leaks}, expected="unchanged")
+
+
+def json_copy(x):
+    import copy
+    return copy.deepcopy(x)
+
+
 def run(ctx, count=None):
     count = count or ctx.n(150, 5000)
     batch = []
@@ -609,10 +742,12 @@ def run(ctx, count=None):
             compare(ctx, rec, r)
         del batch[:]
     for i in range(count):
-        desc = gen_desc(ctx.rng, malformed_env=(i % 12 == 11))
+        desc = gen_desc(ctx.rng, malformed_env=(i % 12 == 11), force_falsy=(i % 5 == 0))
         calls, rec = run_system(ctx, desc, i)
         rec["desc0"] = desc
         batch.append(rec)
+        if i % 12 != 11 and (i % 2 == 0 or ctx.tier != "quick"):
+            run_sharing(ctx, desc, i)
         if len(batch) >= 250:
             flush()
         if ctx.time_left() < 10:
@@ -664,7 +799,10 @@ def replay(ctx, rec):
             self.violations.append({"key": key, "what": what, "impl": impl, "expected": expected})
     sink = Sink()
     for _ in range(3):
-        run_system(sink, desc, 0)
+        if case.get("kind") == "sharing":
+            run_sharing(sink, desc, 0)
+        else:
+            run_system(sink, desc, 0)
     key = rec.get("key")
     same = [v for v in sink.violations if v["key"] == key] or sink.violations
     return not sink.violations, {"failures": same[:5]}
